@@ -10,11 +10,11 @@ SIM = "sim (simulated API server: real k8s managedfields/json-patch libraries, d
 
 CHECKS = {
  "C01": dict(cat="fault_enumeration",
-   text="Real XR reconciler (production wiring, both composers) over the simulated API server: for fixed scenario shapes every API-call index of every reconcile x 6 fault outcomes (incl. crash after the write took effect), then fault-free retries to quiescence; invariants checked by a post-write hook on every intermediate store state. Held on the executions produced, not a proof.",
+   text="Real XR reconciler (production wiring, both composers) over the simulated API server: for fixed scenario shapes every API-call index of every reconcile x 6 fault outcomes (incl. crash after the write took effect), then fault-free retries to quiescence; invariants checked by a post-write hook on every intermediate store state. Held on the executions produced, not a proof. Scenario shapes include desired names changing apiVersion between phases and P&T Compositions that lose and regain named templates (new revision followed by the XR).",
    note="Trusted: " + SIM + "; scripted functions served over real gRPC; single XR; in provider scenarios composed resources carry a finalizer released one step after deletion.",
    technique="runtime monitoring: post-write invariant hook + fault enumeration over API-call indices", ref="3/C01"),
  "C02": dict(cat="exploration",
-   text="For every write site named by the property (definition/offered CRDs, package-manager revision, active-revision establisher, RBAC provider roles / binding / XRD roles, XR composer with a function-chosen name, XR connection secret, composed resources re-parented after composition - both composers) a probe run records what the real controller creates; then an object of that kind and name is planted under a foreign controller reference (or uncontrolled) in a fresh world and the controller runs again. Oracle: foreign object byte-identical (same resourceVersion), no effective write in the log, conflict surfaced (error, Warning event or Synced=False).",
+   text="For every write site named by the property (definition/offered CRDs, package-manager revision, active-revision establisher, RBAC provider roles / binding / XRD roles, XR composer with a function-chosen name, XR connection secret, composed resources re-parented after composition - both composers) a probe run records what the real controller creates; then an object of that kind and name is planted under a foreign controller reference (or uncontrolled) in a fresh world and the controller runs again. Oracle: foreign object byte-identical (same resourceVersion), no effective write in the log, conflict surfaced (error, Warning event or Synced=False). Planted variants: foreign controller, look-alike foreign controller, foreign controller with the legitimate owner demoted to a plain owner, bare unrelated object, uncontrolled; each followed by a phase in which the legitimate owner is deleted; P&T named (patched metadata.name) and anonymous templates.",
    note="Trusted: " + SIM + " incl. the two-controller 422 the SSA composer relies on; the probe run defines the set of objects per site; claim connection secret placements are covered by C09.",
    technique="runtime monitoring: probe-and-plant differential runs with store diff and write-log oracle", ref="3/C02"),
  "C03": dict(cat="exploration",
@@ -22,43 +22,43 @@ CHECKS = {
    note="Trusted: " + SIM + "; the reference fold of scripted step add/del sets; requirement rounds scripted per reconcile.",
    technique="runtime monitoring: write-log oracle (set equation deleted == observed minus desired) over generated pipelines", ref="3/C03"),
  "C12": dict(cat="fault_enumeration",
-   text="Real Composition revision controller over sim driven through edit histories (reverts, label/annotation-only edits, stripped owner references, delete-and-restore, foreign revisions): for 17 fixed histories plus seeded random ones, every API-call index of every reconcile x 6 fault outcomes, retries, then the rest of the history; a post-write hook judges spec immutability, number monotonicity and uniqueness per content on every store state; exactly-one / highest-number after every completed fault-free reconcile; the real APIRevisionFetcher for Manual/Automatic(+selector) XRs against the revisions actually produced.",
+   text="Real Composition revision controller over sim driven through edit histories (reverts, label/annotation-only edits, stripped owner references, delete-and-restore, foreign revisions): for 17 fixed histories plus seeded random ones, every API-call index of every reconcile x 6 fault outcomes, retries, then the rest of the history; a post-write hook judges spec immutability, number monotonicity and uniqueness per content on every store state; exactly-one / highest-number after every completed fault-free reconcile; the real APIRevisionFetcher for Manual/Automatic(+selector) XRs against the revisions actually produced. A further XR has its update policy and revision selector edited by the user between steps; its reference must follow (to a lower-numbered revision too).",
    note="Trusted: " + SIM + "; content identity is the generator's content index; the XR side calls Fetch directly, not the whole XR reconciler.",
    technique="runtime monitoring: post-write invariant hook + fault enumeration over edit histories", ref="3/C12"),
  "C13": dict(cat="exploration",
-   text="Real ControllerEngine, StoppableSource, InformerTrackingCache and watch GarbageCollector with fakes only at the edges: (a) thousands of short concurrent histories from 16-64 goroutines under the Go race detector, call/return recorded at the caller, checked for linearizability per controller with porcupine (timeouts resolved only towards 'held' by an exact sweep for the boolean model) and for registration invariants at quiescence, deadlock watchdog with goroutine-dump classification; (b) deterministic forced windows inside StartWatches through a parking ActiveInformers(); (c) the collector over generated XR/watch sets; (d) re-establishment after informer removal. Race reports touching crossplane frames are violations.",
+   text="Real ControllerEngine, StoppableSource, InformerTrackingCache and watch GarbageCollector with fakes only at the edges: (a) thousands of short concurrent histories from 16-64 goroutines under the Go race detector, call/return recorded at the caller, checked for linearizability per controller with porcupine (timeouts resolved only towards 'held' by an exact sweep for the boolean model) and for registration invariants at quiescence, deadlock watchdog with goroutine-dump classification; (b) deterministic forced windows inside StartWatches through a parking ActiveInformers(); (c) the collector over generated XR/watch sets; (d) re-establishment after informer removal. Race reports touching crossplane frames are violations. (e) informer faults during Stop: a controller reported as not running has a cancelled context and no live handler, and a retried Stop gets there.",
    note="Trusted: the fake informers' registration tracking; schedules under stress are not reproducible (replays regenerate the operations, not the interleaving); a clean race-detector run covers only the interleavings produced.",
    technique="runtime monitoring: Go race detector + porcupine linearizability checking of recorded histories + quiescence invariants + forced interleaving windows", ref="3/C13"),
  "C14": dict(cat="fault_enumeration",
-   text="Real package manager reconciler + real PackageRevisioner over sim and a fake registry, driven through edit histories (source changes incl. rollbacks, history limit incl. 0 and lowering, activation policy, pull policies, digest changes behind a tag, revision health changes) for Provider/Configuration/Function: every API-call index x 6 fault outcomes on base histories (sampled positions on random ones), retries to quiescence; a post-write hook checks <=1 Active revision on every state produced by a Crossplane write and judges every Delete (never the current revision, only the oldest, only above the limit, never with limit 0); after each completed reconcile the current digest's revision exists, has the highest number and is Active unless Manual.",
+   text="Real package manager reconciler + real PackageRevisioner over sim and a fake registry, driven through edit histories (source changes incl. rollbacks, history limit incl. 0 and lowering, activation policy, pull policies, digest changes behind a tag, revision health changes) for Provider/Configuration/Function: every API-call index x 6 fault outcomes on base histories (sampled positions on random ones), retries to quiescence; a post-write hook checks <=1 Active revision on every state produced by a Crossplane write and judges every Delete (never the current revision, only the oldest, only above the limit, never with limit 0); after each completed reconcile the current digest's revision exists, has the highest number and is Active unless Manual. Some histories run with the revision controller's finalizer on revisions, so user-deleted revisions linger in Terminating state.",
    note="Trusted: " + SIM + "; the fake Fetcher; revisions are bound to the digest the registry answered at creation; user-produced double-Active states are not judged.",
    technique="runtime monitoring: post-write invariant hook + fault enumeration over package edit histories", ref="3/C14"),
  "C15": dict(cat="exploration",
-   text="Real revision reconciler with the real parser, per-type linters, ImageBackend, FsPackageCache (over a fault-injecting filesystem), signature reconciler (scripted validator) and xpkg builder; fake registry serving in-memory images in 11 layouts; recording establisher. Generated package streams (allowed / disallowed kinds, 0/1/2 meta objects, wrong meta kind, Crossplane constraints met / unmet / malformed +- ignore flag), cache cold / warm / truncated / corrupt / store failing at byte N / source failing at byte N / two revisions sharing a cache from two goroutines, signature gate; oracles: established set == the image's package stream whether from registry or cache and after failed cache writes; invalid packages never reach the establisher; build -> parse round trip.",
+   text="Real revision reconciler with the real parser, per-type linters, ImageBackend, FsPackageCache (over a fault-injecting filesystem), signature reconciler (scripted validator) and xpkg builder; fake registry serving in-memory images in 11 layouts; recording establisher. Generated package streams (allowed / disallowed kinds, 0/1/2 meta objects, wrong meta kind, Crossplane constraints met / unmet / malformed +- ignore flag), cache cold / warm / truncated / corrupt / store failing at byte N / source failing at byte N / two revisions sharing a cache from two goroutines, signature gate; oracles: established set == the image's package stream whether from registry or cache and after failed cache writes; invalid packages never reach the establisher; build -> parse round trip. Signature reconciles also run with one failing API call (plain API errors and discovery-layer errors: kind not served, 503, 404).",
    note="Trusted: golden/allowed_kinds.json (transcribed from contributing/specifications/xpkg.md), the harness's image builder and canonical object comparison; the running Crossplane version is injected by setting version.New()'s private field.",
    technique="runtime monitoring: established-set equality oracle over generated images with cache and stream fault injection", ref="3/C15"),
  "C16": dict(cat="exploration",
-   text="Real APIEstablisher (driven the way the revision reconciler drives it) and the full real revision reconciler over sim: generated object sets against pre-existing objects (absent, uncontrolled, controlled by the previous revision, by another package, by a foreign owner, admission-rejected), upgrade and rollback sequences of active and inactive revisions in every step order with the GC actor after every step, and an API error at every call index of Establish / ReleaseObjects followed by a clean retry; a post-write hook and post-call oracles check all-or-nothing for un-takeable objects, creates only by active revisions, controller only via control=true, ownership kept after release, package as non-controlling owner, no package object collected by the GC during an upgrade.",
+   text="Real APIEstablisher (driven the way the revision reconciler drives it) and the full real revision reconciler over sim: generated object sets against pre-existing objects (absent, uncontrolled, controlled by the previous revision, by another package, by a foreign owner, admission-rejected), upgrade and rollback sequences of active and inactive revisions in every step order with the GC actor after every step, and an API error at every call index of Establish / ReleaseObjects followed by a clean retry; a post-write hook and post-call oracles check all-or-nothing for un-takeable objects, creates only by active revisions, controller only via control=true, ownership kept after release, package as non-controlling owner, no package object collected by the GC during an upgrade. Also: a third party deletes one of the revision's objects right before call k of an Establish, for every k; upgrade, rollback and roll-forward phases.",
    note="Trusted: " + SIM + " incl. dry-run and the GC actor; refusals are predicted from the store state before the call; partial writes caused by an injected API error mid-establish are not judged by the all-or-nothing clause.",
    technique="runtime monitoring: post-write ownership invariants + write-log (dry-run vs real) oracle + fault enumeration", ref="3/C16"),
  "C17": dict(cat="exploration",
-   text="Real MapDag/MapUpgradingDag (Init/Sort/TraceNode) on ALL digraphs over <=3 (quick) / <=4 (thorough) ids incl. self-loops and implied nodes plus random larger graphs, compared with an independent reference digraph; real resolver reconciler (3 modes: plain, upgrades, upgrades+downgrades) over sim with a fake tag fetcher against a reference version selector; real PackageDependencyManager.Resolve against a reference closure. Exhaustive for the small digraph space, sampled beyond.",
+   text="Real MapDag/MapUpgradingDag (Init/Sort/TraceNode) on ALL digraphs over <=3 (quick) / <=4 (thorough) ids incl. self-loops and implied nodes plus random larger graphs, compared with an independent reference digraph; real resolver reconciler (3 modes: plain, upgrades, upgrades+downgrades) over sim with a fake tag fetcher against a reference version selector; real PackageDependencyManager.Resolve against a reference closure. Exhaustive for the small digraph space, sampled beyond. Package metadata may list the same dependency more than once with different constraints.",
    note="Trusted: Masterminds/semver Constraints.Check/Compare as the primitive; reference digraph (Kahn), sim. Panicking reconciles (semver.MustParse on digests) are judged like error returns.",
    technique="runtime monitoring: exhaustive small-graph enumeration + generated inputs against reference implementations", ref="3/C17"),
  "C18": dict(cat="exploration",
-   text="Real ClusterRoleBackedValidator/Expand checked against an independent Kubernetes RuleAllows evaluator on the complete universe of concrete requests per (allow-list, request) pair (complete grid of single-token rules + generated pairs); real roles/definition/binding reconcilers over sim: any rejected request => no role write; system role rules bounded by owned/family CRDs + golden baseline + accepted requests; XRD roles name exactly the XRD's resources. Held on the generated inputs; exhaustive only for the single-token rule grid.",
+   text="Real ClusterRoleBackedValidator/Expand checked against an independent Kubernetes RuleAllows evaluator on the complete universe of concrete requests per (allow-list, request) pair (complete grid of single-token rules + generated pairs); real roles/definition/binding reconcilers over sim: any rejected request => no role write; system role rules bounded by owned/family CRDs + golden baseline + accepted requests; XRD roles name exactly the XRD's resources. Held on the generated inputs; exhaustive only for the single-token rule grid. Part 5: two revisions reconciled by one reconciler with A parked before every API call / inside the validator while B completes; the roles must equal those of the sequential run on a copy of the cluster.",
    note="Trusted: the concrete-request evaluator (pinned by c18/oracle_test.go), golden/rbac_baseline.json, the independent image-reference parser; literal '*' resourceNames are not generated (documented quirk).",
    technique="runtime monitoring: differential check against a reference RBAC evaluator with per-pair exhaustive small-model enumeration", ref="3/C18"),
  "C04": dict(cat="exploration",
-   text="Generated pipelines of deterministic function programs behind real gRPC servers (one per function revision, some v1beta1-only) driven by the real FunctionComposer -> FetchingFunctionRunner -> PackagedFunctionRunner chain inside the real XR reconciler; a reference interpreter (contract from the statement + the same programs + the store snapshot at pipeline start) predicts every RunFunctionRequest of later reconciles, compared with proto.Equal; also routing to the active revision after flips/endpoint moves, applied set = last output, results/conditions surfaced in order, connection closed after uninstall.",
+   text="Generated pipelines of deterministic function programs behind real gRPC servers (one per function revision, some v1beta1-only) driven by the real FunctionComposer -> FetchingFunctionRunner -> PackagedFunctionRunner chain inside the real XR reconciler; a reference interpreter (contract from the statement + the same programs + the store snapshot at pipeline start) predicts every RunFunctionRequest of later reconciles, compared with proto.Equal; also routing to the active revision after flips/endpoint moves, applied set = last output, results/conditions surfaced in order, connection closed after uninstall. Also: a fatal result in the last step must not degrade conditions asserted in that reconcile; a function uninstalled, collected and installed again must be reached; concurrent stress of PackagedFunctionRunner (race detector in the thorough tier).",
    note="Trusted: the reference interpreter (threading, requirement rounds, observed-state construction written from the statement); " + SIM + "; the first reconcile of an XR is not judged.",
    technique="runtime monitoring: recorded gRPC requests against a reference interpreter of generated programs", ref="3/C04"),
  "C05": dict(cat="exploration",
-   text="Full product (1..3 resources) of per-resource outcomes x explicit XR readiness x function conditions (incl. forged system types) x fatal variants through the real XR reconciler in Pipeline mode, full product of {ready, unready, invalid apply, render failure} in P&T mode, and claim reconciles (both syncers, fresh and stale XR reads) over scripted XR Ready sequences; stored status.conditions checked against one-directional implications from the statement. Exhaustive for the stated small sizes, sampled for claim sequences.",
+   text="Full product (1..3 resources) of per-resource outcomes x explicit XR readiness x function conditions (incl. forged system types) x fatal variants through the real XR reconciler in Pipeline mode, full product of {ready, unready, invalid apply, render failure} in P&T mode, and claim reconciles (both syncers, fresh and stale XR reads) over scripted XR Ready sequences; stored status.conditions checked against one-directional implications from the statement. Exhaustive for the stated small sizes, sampled for claim sequences. P&T readiness is driven by lists of 1-3 checks of all seven types with a known verdict.",
    note="Trusted: " + SIM + "; scripted admission returns 422 for one kind; functions are scripted gRPC servers.",
    technique="runtime monitoring: enumerated outcome product against implication oracles on stored conditions", ref="3/C05"),
  "C06": dict(cat="fault_enumeration",
-   text="Production-wired claim reconciler (captured from the real offered reconciler; CSA and SSA syncers) over sim: every API-call index of every claim reconcile x 6 fault outcomes + retries; claim reads served from a cache lagging 1..12 writes; seeded interleavings and an enumerated grid of bounded-preemption plans at API-call granularity with the XR reconciler, a same-named claim in another namespace and user deletion; a cache serving exactly one stale claim read; statically referenced foreign-bound XRs. Invariants (<=1 XR per claim, XR created only under the name already stored on the claim, no write to a foreign-bound XR) checked by a post-write hook on every store state.",
+   text="Production-wired claim reconciler (captured from the real offered reconciler; CSA and SSA syncers) over sim: every API-call index of every claim reconcile x 6 fault outcomes + retries; claim reads served from a cache lagging 1..12 writes; seeded interleavings and an enumerated grid of bounded-preemption plans at API-call granularity with the XR reconciler, a same-named claim in another namespace and user deletion; a cache serving exactly one stale claim read; statically referenced foreign-bound XRs. Invariants (<=1 XR per claim, XR created only under the name already stored on the claim, no write to a foreign-bound XR) checked by a post-write hook on every store state. Also: a recorded XR name is never replaced (O4), the XR cache alone lagging, and every call index x 6 outcomes on the refused reconcile of a claim referencing an XR bound to another claim.",
    note="Trusted: " + SIM + " incl. resourceVersion conflicts and the lagging-reader view; never two concurrent reconciles of one claim; random-suffix name collisions out of scope.",
    technique="runtime monitoring: post-write invariant hook + fault enumeration + scheduled interleavings", ref="3/C06"),
  "C07": dict(cat="exploration",
@@ -66,11 +66,11 @@ CHECKS = {
    note="Trusted: the partition table in c07/main.go (written from the statement), sim SSA via k8s managedfields; the XRD preserves unknown fields so no pruning model is needed; removal of fields deleted on the other side is not required (superset semantics for nested maps).",
    technique="runtime monitoring: generated object pairs against a reference field partition", ref="3/C07"),
  "C08": dict(cat="exploration",
-   text="Real definition and offered reconcilers with a capturing engine (the XR and claim reconcilers are the production-wired ones and reconcile only while the engine says their controller runs), interleaved at API-call granularity by a seeded scheduler with user deletions (claim, XR, XRD with foreground/background propagation), the Kubernetes garbage collector and CRD cleanup as explicit actors, a third party stripping finalizers and an injected API error, plus ~3000 enumerated bounded-preemption plans (victim controller preempted twice by intruders); part B: the real revision reconciler's deletion branch with the real PackageDependencyManager over a Lock (every call index x 6 outcomes, concurrent deletions); precedence monitors on every event of the single ordered trace (claim finalizer after XR delete, CRD delete after instances gone and controller stopped, Stop after instances gone, XRD finalizers after CRD gone, nothing terminating left with a stopped controller, revision finalizer removed only when the Lock no longer lists it). The composed-Usage clause is decided by C19.",
+   text="Real definition and offered reconcilers with a capturing engine (the XR and claim reconcilers are the production-wired ones and reconcile only while the engine says their controller runs), interleaved at API-call granularity by a seeded scheduler with user deletions (claim, XR, XRD with foreground/background propagation), the Kubernetes garbage collector and CRD cleanup as explicit actors, a third party stripping finalizers and an injected API error, plus ~3000 enumerated bounded-preemption plans (victim controller preempted twice by intruders); part B: the real revision reconciler's deletion branch with the real PackageDependencyManager over a Lock (every call index x 6 outcomes, concurrent deletions); precedence monitors on every event of the single ordered trace (claim finalizer after XR delete, CRD delete after instances gone and controller stopped, Stop after instances gone, XRD finalizers after CRD gone, nothing terminating left with a stopped controller, revision finalizer removed only when the Lock no longer lists it). Part C: XRD teardown against the REAL ControllerEngine over fake informers whose handler removal fails transiently (Stop marks are ground truth: context cancelled and no handler left). Part D: the real usage reconciler on a composed Usage with user deletions (fore/background), a provider finalizer, a lingering dependent and single GC steps; the Usage finalizer is removed only after the using resource is gone.",
    note="Trusted: " + SIM + " incl. the modelled CRD cleanup finalizer and GC foreground/background semantics; a stopped controller reconciles nothing; schedules are seeded random walks, not exhaustive.",
    technique="runtime monitoring: online precedence monitors over a scheduled multi-controller trace", ref="3/C08"),
  "C09": dict(cat="exploration",
-   text="Generated connection-detail maps, XRD key filters, extraction configs and pre-existing secrets (absent, uncontrolled typed/untyped, owner-controlled, foreign-controlled, controller tampered before the claim copies) run through the real XR reconciler (both composers) and the production-wired claim reconciler (both syncers) over sim; oracle over the stored Secrets and every write addressed to a Secret (filter, provenance against a reference extraction, only-if-requested, exact copy only from a secret controlled by the bound XR, no rewrite of identical data).",
+   text="Generated connection-detail maps, XRD key filters, extraction configs and pre-existing secrets (absent, uncontrolled typed/untyped, owner-controlled, foreign-controlled, controller tampered before the claim copies) run through the real XR reconciler (both composers) and the production-wired claim reconciler (both syncers) over sim; oracle over the stored Secrets and every write addressed to a Secret (filter, provenance against a reference extraction, only-if-requested, exact copy only from a secret controlled by the bound XR, no rewrite of identical data). Provenance cases: XR details derived from composed resources' connection secrets while a referenced resource is re-parented or recreated by another owner behind a lagging cache; that owner's values never reach the XR or claim secret.",
    note="Trusted: " + SIM + "; the reference extraction (from the ConnectionDetail API docs); 'identical data never rewritten' is judged on requests only when the stored data equals exactly what would be published.",
    technique="runtime monitoring: store/write-log oracle over generated secrets and ownership placements", ref="3/C09"),
  "C10": dict(cat="exploration",
@@ -78,11 +78,11 @@ CHECKS = {
    note="Trusted: the reference transforms in c10/ref.go (written from the API documentation); behaviours the docs leave open (merge options, lenient number syntaxes, int64 overflow) are exercised for totality/purity only.",
    technique="runtime monitoring: generated inputs against a reference oracle, crash-isolating child processes", ref="3/C10"),
  "C11": dict(cat="exploration",
-   text="Real xcrd.ForCompositeResource/ForCompositeResourceClaim, XRD Validate/ValidateUpdate and the real XRD admission webhook (over sim) run on thousands of generated XRDs and (old,new) pairs; outputs compared with an independent oracle and golden machinery schemas. Held on the generated inputs.",
+   text="Real xcrd.ForCompositeResource/ForCompositeResourceClaim, XRD Validate/ValidateUpdate and the real XRD admission webhook (over sim) run on thousands of generated XRDs and (old,new) pairs; outputs compared with an independent oracle and golden machinery schemas. Held on the generated inputs. Controller stream: one long-lived pair of real definition/offered reconcilers over a history of one XRD name (created, edited in place, deleted, created again); the stored CRDs go through the same oracle.",
    note="Trusted: golden/machinery_*.json (reviewed dump of the machinery schema); the generator's schema grammar; sim accepts any CRD body on dry-run so webhook denials come only from Crossplane's validation.",
    technique="runtime monitoring: generated inputs against a reference oracle + golden machinery schema", ref="3/C11"),
  "C19": dict(cat="exploration",
-   text="The real usage webhook handler (registered through the fake manager, invoked over its HTTP interface with AdmissionReview requests built from the rules and objectSelector parsed from cluster/webhookconfigurations/usage.yaml) and the real usage reconciler over sim: 16 fixed scenarios with a fault at every call of every usage reconcile (x6 outcomes) and of every webhook invocation (x4), exhaustive two-party preemption enumeration (every split of A and B at API-call granularity) for 11 races, and seeded random schedules with users creating/deleting Usages and resources (every propagation policy, a second served version), the GC actor and faults; oracles on every store state and every DELETE attempt (refused iff a Ready non-deleting Usage names it, attempt recorded, label before Ready, label removed only by the last Usage, owner reference to the using resource and release after the user is gone).",
+   text="The real usage webhook handler (registered through the fake manager, invoked over its HTTP interface with AdmissionReview requests built from the rules and objectSelector parsed from cluster/webhookconfigurations/usage.yaml) and the real usage reconciler over sim: 16 fixed scenarios with a fault at every call of every usage reconcile (x6 outcomes) and of every webhook invocation (x4), exhaustive two-party preemption enumeration (every split of A and B at API-call granularity) for 11 races, and seeded random schedules with users creating/deleting Usages and resources (every propagation policy, a second served version), the GC actor and faults; oracles on every store state and every DELETE attempt (refused iff a Ready non-deleting Usage names it, attempt recorded, label before Ready, label removed only by the last Usage, owner reference to the using resource and release after the user is gone). All fixed scenarios are repeated with the used/using kind in the core API group (apiVersion without a slash).",
    note="Trusted: " + SIM + "; the admission wiring built from usage.yaml; usage controller reads are modelled as fresh; replayDeletion (background goroutine with a sleep) is excluded.",
    technique="runtime monitoring: admission-response and store oracles over enumerated preemptions, fault enumeration and scheduled interleavings", ref="3/C19"),
  "C20": dict(cat="fault_enumeration",
